@@ -113,8 +113,12 @@ NONDET = [
 ]
 # MockService leaves these non-null fields unset (protobuf has no null): the datasource can only emit null
 SERVICE_NULL = [
-    ("RecursiveType", "recursiveType"),   # QueryRecursiveType builds 3 levels
-    ("Owner", "pet"),                     # never populated
+    # (root field or "*", parent type, field); found with a full-selection calibration run over every root
+    ("*", "RecursiveType", "recursiveType"),   # QueryRecursiveType builds 3 levels
+    ("*", "Owner", "pet"),                     # never populated
+    # QueryAuthor fills Author.writtenPosts with BlogPosts that lack the nested-list wrappers
+    ("author", "BlogPost", "tagGroups"), ("author", "BlogPost", "relatedTopics"),
+    ("author", "BlogPost", "commentThreads"), ("author", "BlogPost", "categoryGroups"),
 ]
 
 SCALARS = ["ID", "String", "Int", "Float", "Boolean"]
@@ -459,7 +463,7 @@ def generate(sdl_text):
     a("\\* value-nondeterministic coordinates (MockService uses math/rand): compared by shape only")
     a("NonDet == " + tla_set(["<<%s, %s, %s>>" % tuple(tla_str(x) for x in c) for c in NONDET]))
     a("\\* non-null fields MockService leaves unset")
-    a("ServiceNull == " + tla_set(["<<%s, %s>>" % tuple(tla_str(x) for x in c) for c in SERVICE_NULL]))
+    a("ServiceNull == " + tla_set(["<<%s, %s, %s>>" % tuple(tla_str(x) for x in c) for c in SERVICE_NULL]))
     a("=============================================================================")
     return "\n".join(lines) + "\n"
 
